@@ -337,8 +337,10 @@ def e_keyed_default_on_plain(rng, m):
     if not ch:
         return None
     ch["default"] = None
-    ch["defaults"] = [["somekey", "v"]]
-    return "keyed default on plain key"
+    k = rng.choice(["somekey", "somekey", "", " "])
+    ch["defaults"] = [[k, "v"]]
+    return "keyed default on plain key" + ("" if k == "somekey" else
+                                           " (key attribute %r)" % k)
 
 
 def e_unkeyed_default_on_wild(rng, m):
